@@ -1827,7 +1827,20 @@ pub fn registry(rng: &mut Rng) -> Program {
             }
             let k = g.rng.range(1, ntypes as u64) as u8;
             let ops = &mut g.prog.clients[c];
-            match g.rng.below(15) {
+            match g.rng.below(16) {
+                15 => {
+                    // an instance that has already terminated is installed with replace(): the entry is then a dead
+                    // one (already_running says Some(false)), not an empty slot
+                    ops.push(Op::SpawnActor { decl: (k - 1) as u16 }); // nslots
+                    ops.push(Op::Clone { slot: nslots }); // nslots + 1
+                    ops.push(Op::Stop { slot: nslots + 1 });
+                    ops.push(Op::Await { slot: nslots + 1, by_ref: true });
+                    ops.push(Op::Replace { slot: nslots }); // prev: nslots + 2
+                    ops.push(Op::AlreadyRunning { k });
+                    held.push((nslots, k));
+                    nslots += 3;
+                    used += 2;
+                }
                 14 => {
                     // a lookup that gives up (timeout / select!) while the service it spawned is still starting, then a
                     // patient one: both see the same instance
